@@ -82,12 +82,21 @@ def run(chk):
     from . import c06
     chk.borrow(c06.r3, {"C06.R3": "C09.R8"})
     chk.borrow(c06.r4, {"C06.R4": "C09.R8"})  # ... and on exactly the cards that belong to the assertion's data
+    # ... which the threshold decides: it is the sample number of the contest's n_c-th card itself, not a converted copy (C07.R3)
+    from . import c07 as _c07
+    _f = _c07.sampling_facts(chk)
+    def _r23(c):
+        _c07.r2(c, _f)
+        _c07.r3(c, _f)
+    chk.borrow(_r23, {"C07.R3": "C09.R8"})
 
 
 # ---------------------------------------------------------------------------
 
 
 def r_set_p_values(chk):
+    aud.keeps_no_state(chk, "C09.R1", REL, ["Assertion.mvrs_to_data", "Assertion.overstatement_assorter", "Assorter.overstatement"],
+                       "the data of an assertion are computed from the samples handed in")
     fn = chk.fn(REL, "Assertion.set_p_values", canonical=True)
     where = W("Assertion.set_p_values")
     params = [a.arg for a in fn.args.args]
